@@ -482,9 +482,10 @@ Init ==
        /\ (cx = 1 => fy = NF)
        \* an unreadable source in the write pass: only where the write pass
        \* needs that header (equal store heights, header above the tips), not
-       \* multiplied with checkpoints, a cancelled context or store faults
+       \* multiplied with header deviations, checkpoints, a cancelled context
+       \* or store faults
        /\ ((rsrc = "none") <=> (rkind = "none"))
-       /\ (rsrc # "none" => (hB = hF /\ rk > hB /\ ck = NF /\ cx = 0))
+       /\ (rsrc # "none" => (hB = hF /\ rk > hB /\ ck = NF /\ cx = 0 /\ kind = "none" /\ fy = NF))
        \* faults are not multiplied with checkpoints / a cancelled context
        /\ nf = IF Anom(cfg) < MaxAnom /\ cx = 0 /\ ck = NF /\ rsrc = "none" THEN MaxFaults ELSE 0
   /\ bfile = [p \in 1..(cfg.hB + 1) |-> p - 1]
